@@ -1,5 +1,5 @@
 (* Model of the detector chain of lentil/detector.py (current tree: adc clips a copy with
-   np.minimum, the Bayer mosaic is built with np.tile + np.repeat):
+   np.minimum whenever a capacity is given, builds the powers by repeated multiplication, the Bayer mosaic is built with np.tile + np.repeat):
      qe_asarray, collect_charge, format_bayer_string, collect_charge_bayer, adc.
    Charge collection needs ring operations only and is generic over [S : Scalar]; digitisation
    needs order and floor and lives on the rationals (every float is a rational).
@@ -125,7 +125,6 @@ Definition QcS : Scalar :=
   mkScalar Qc (Q2Qc 0) 1%Qc Qcplus Qcmult Qcminus Qcopp (fun x => x) (fun q => q) (fun _ => 1%Qc).
 
 Definition qgt (x y : Qc) : bool := match (x ?= y)%Qc with Gt => true | _ => false end.   (* x > y *)
-Definition qis0 (x : Qc) : bool := match (x ?= Q2Qc 0)%Qc with Eq => true | _ => false end.
 Definition qmin (x y : Qc) : Qc := if qgt x y then y else x.                                (* np.minimum *)
 Definition qfloor (x : Qc) : Z := Qfloor (this x).                                          (* np.floor *)
 
@@ -137,9 +136,8 @@ Inductive gainrep :=
 | G3 (c : cube QcS)         (* pixel-by-pixel polynomial: first axis = coefficients *)
 | GN.                       (* ndim >= 4 *)
 
-(* `if saturation_capacity:` - None and 0 both switch saturation off *)
-Definition sat_active (sat : option Qc) : option Qc :=
-  match sat with Some s => if qis0 s then None else Some s | None => None end.
+(* `if saturation_capacity is not None:` - every capacity, 0 included, switches saturation on *)
+Definition sat_active (sat : option Qc) : option Qc := sat.
 (* img = np.minimum(img, saturation_capacity) *)
 Definition clip (sat : option Qc) (e : Qc) : Qc :=
   match sat_active sat with Some s => qmin e s | None => e end.
@@ -169,7 +167,7 @@ Definition gcoef (g : gainrep) (d i j : Z) : Qc :=
   | G3 c => cget c d i j
   | GN => Q2Qc 0
   end.
-(* img_cube: slice d = img ** (n - d) for d = 0 .. n-2 (the loop), the last slice is img itself *)
+(* img_cube: the last slice is img itself, slice d = slice (d+1) * img = img ** (n - d) for d = n-2 .. 0 (the loop) *)
 Definition power_slice (n d : Z) (e : Qc) : Qc := if d <? n - 1 then Qcpower e (Z.to_nat (n - d)) else e.
 (* sum over the first einsum axis *)
 Definition gain_model (n : Z) (coef : Z -> Qc) (e : Qc) : Qc :=
